@@ -196,6 +196,11 @@ class _BadiYearMonthDayCalculator(_YearMonthDayCalculator):
         end_month = end._month
         end_year = end._year
 
+        # Moving backwards from Ayyam-i-Ha, _add_months counts from the following month (Ayyam-i-Ha lies between
+        # months 18 and 19), so the first guess has to start there as well.
+        if start > end and self.__is_in_ayyami_ha(start):
+            start_month += 1
+
         diff = (end_year - start_year) * self.__MONTHS_IN_YEAR + end_month - start_month
 
         # If we just add the difference in months to start, what do we get?
